@@ -1,11 +1,1121 @@
-(* Migrate/Proofs.v — proofs about the C18 model *)
+(* Migrate/Proofs.v — C18: the invariant of the register content and its preservation by every
+   decision procedure of the model, lifted over event sequences. *)
 From ZV Require Import Migrate.Consts Migrate.Model.
-From Coq Require Import ZifyN ZifyNat ZifyBool.
+From Coq Require Import ZArith ZifyN ZifyNat ZifyBool Permutation.
 Open Scope N_scope.
+Ltac Zify.zify_post_hook ::= Z.div_mod_to_equations.
 
-Lemma reg_update_counter_mono : forall r v g r' o a, reg_update r v g = (r', o, a) -> r_counter r <= r_counter r'.
+(* ------------------------------------------------------------------------------------------ *)
+(* association-list facts                                                                      *)
+(* ------------------------------------------------------------------------------------------ *)
+Definition keys {A} (m : list (N * A)) : list N := map fst m.
+
+Lemma mem_In : forall k l, mem k l = true <-> In k l.
+Proof.
+  intros k l. unfold mem. rewrite existsb_exists. split.
+  - intros [x [Hx He]]. apply N.eqb_eq in He. subst. exact Hx.
+  - intros H. exists k. split; [exact H|apply N.eqb_refl].
+Qed.
+Lemma mem_false : forall k l, mem k l = false <-> ~ In k l.
+Proof. intros. rewrite <- mem_In. destruct (mem k l); split; congruence. Qed.
+
+Lemma aget_In : forall A k (m : list (N * A)) v, aget k m = Some v -> In (k, v) m.
+Proof.
+  induction m as [|[k' v'] m IH]; simpl; intros v H; [discriminate|].
+  destruct (k' =? k) eqn:E.
+  - apply N.eqb_eq in E. inversion H. subst. left. reflexivity.
+  - right. apply IH. exact H.
+Qed.
+Lemma aget_None : forall A k (m : list (N * A)), aget k m = None <-> ~ In k (keys m).
+Proof.
+  induction m as [|[k' v'] m IH]; simpl.
+  - split; [intros _ []|reflexivity].
+  - destruct (k' =? k) eqn:E.
+    + apply N.eqb_eq in E. split; [discriminate|intros H; exfalso; apply H; left; exact E].
+    + apply N.eqb_neq in E. rewrite IH. split; [intros H [H1|H1]; [congruence|auto]|intros H H1; apply H; right; exact H1].
+Qed.
+Lemma ahas_In : forall A k (m : list (N * A)), ahas k m = true <-> In k (keys m).
+Proof.
+  intros. unfold ahas. destruct (aget k m) eqn:E.
+  - split; [intros _|reflexivity]. apply aget_In in E. apply (in_map fst) in E. exact E.
+  - apply aget_None in E. split; [discriminate|contradiction].
+Qed.
+Lemma ahas_false : forall A k (m : list (N * A)), ahas k m = false <-> ~ In k (keys m).
+Proof. intros. rewrite <- ahas_In. destruct (ahas k m); split; congruence. Qed.
+
+Lemma aget_nodup : forall A k v (m : list (N * A)), NoDup (keys m) -> In (k, v) m -> aget k m = Some v.
+Proof.
+  induction m as [|[k' v'] m IH]; simpl; intros Hn Hi; [contradiction|].
+  inversion Hn as [|? ? Hnot Hn']; subst.
+  destruct Hi as [Hi|Hi].
+  - inversion Hi; subst. rewrite N.eqb_refl. reflexivity.
+  - destruct (k' =? k) eqn:E.
+    + apply N.eqb_eq in E. subst. exfalso. apply Hnot. apply (in_map fst) in Hi. exact Hi.
+    + apply IH; assumption.
+Qed.
+
+Lemma keys_aremove : forall A k (m : list (N * A)), keys (aremove k m) = filter (fun x => negb (x =? k)) (keys m).
+Proof.
+  induction m as [|[k' v'] m IH]; simpl; [reflexivity|].
+  destruct (k' =? k); simpl; rewrite IH; reflexivity.
+Qed.
+Lemma In_aremove : forall A k (m : list (N * A)) e, In e (aremove k m) <-> In e m /\ fst e <> k.
+Proof.
+  intros. unfold aremove. rewrite filter_In. rewrite negb_true_iff, N.eqb_neq. reflexivity.
+Qed.
+Lemma aremove_notin : forall A k (m : list (N * A)), ~ In k (keys m) -> aremove k m = m.
+Proof.
+  induction m as [|[k' v'] m IH]; simpl; intros H; [reflexivity|].
+  destruct (k' =? k) eqn:E.
+  - apply N.eqb_eq in E. exfalso. apply H. left. exact E.
+  - simpl. f_equal. apply IH. intros H1. apply H. right. exact H1.
+Qed.
+Lemma NoDup_filter : forall A (f : A -> bool) l, NoDup l -> NoDup (filter f l).
+Proof.
+  induction l as [|x l IH]; simpl; intros H; [constructor|].
+  inversion H; subst. destruct (f x); [constructor|]; auto.
+  rewrite filter_In. tauto.
+Qed.
+Lemma NoDup_map_filter : forall A B (g : A -> B) (f : A -> bool) l, NoDup (map g l) -> NoDup (map g (filter f l)).
+Proof.
+  induction l as [|x l IH]; simpl; intros H; [constructor|].
+  inversion H; subst. destruct (f x); simpl; [constructor|]; auto.
+  intros Hi. apply in_map_iff in Hi. destruct Hi as [y [Hy Hi]]. apply filter_In in Hi.
+  apply H2. rewrite <- Hy. apply in_map. tauto.
+Qed.
+Lemma keys_app : forall A (a b : list (N * A)), keys (a ++ b) = keys a ++ keys b.
+Proof. intros. unfold keys. apply map_app. Qed.
+Lemma NoDup_snoc : forall A (l : list A) x, NoDup l -> ~ In x l -> NoDup (l ++ [x]).
+Proof.
+  induction l as [|y l IH]; simpl; intros x Hn Hx; [constructor; [intros []|constructor]|].
+  inversion Hn; subst. constructor.
+  - rewrite in_app_iff. simpl. intros [H|[H|[]]]; [auto|subst; apply Hx; left; reflexivity].
+  - apply IH; [assumption|intros H; apply Hx; right; exact H].
+Qed.
+Lemma nodupb_NoDup : forall l, nodupb l = true <-> NoDup l.
+Proof.
+  induction l as [|x l IH]; simpl; [split; [constructor|reflexivity]|].
+  rewrite andb_true_iff, negb_true_iff, mem_false, IH. split.
+  - intros [H1 H2]. constructor; assumption.
+  - intros H. inversion H; subst. split; assumption.
+Qed.
+Lemma len_app : forall A (a b : list A), len (a ++ b) = len a + len b.
+Proof. intros. unfold len. rewrite app_length. lia. Qed.
+Lemma len_nil_iff : forall A (l : list A), len l = 0 <-> l = [].
+Proof. intros. unfold len. destruct l; simpl; split; intros; try reflexivity; try discriminate; lia. Qed.
+Lemma len_map : forall A B (f : A -> B) l, len (map f l) = len l.
+Proof. intros. unfold len. rewrite map_length. reflexivity. Qed.
+
+(* ------------------------------------------------------------------------------------------ *)
+(* the invariant                                                                               *)
+(* ------------------------------------------------------------------------------------------ *)
+Record wf (i : rinfo) : Prop := mkWf {
+  wf_nodes_nodup : NoDup (raft_nodes i);                                   (* replicas on distinct nodes *)
+  wf_ids_nodup   : NoDup (keys (raft_ids i));
+  wf_ids_keys    : forall n, In n (keys (raft_ids i)) <-> In n (raft_nodes i);
+  wf_ids_inj     : NoDup (map snd (raft_ids i));                           (* RaftIDs injective *)
+  wf_ids_max     : forall n id, In (n, id) (raft_ids i) -> id <= max_id i; (* every id <= MaxRaftID *)
+  wf_rm_nodup    : NoDup (keys (removings i));
+  wf_rm_sub      : forall n, In n (keys (removings i)) -> In n (raft_nodes i)
+}.
+
+(* Inv: well-formed, at most one replica marked for removal, the remaining replicas a strict
+   majority of the replication factor *)
+Definition Inv (replica : N) (i : rinfo) : Prop :=
+  wf i /\ len (removings i) <= 1 /\ replica / 2 < len (isr i).
+
+Lemma is_quorum_spec : forall replica i, is_quorum replica i = true <-> replica / 2 < len (isr i).
+Proof. intros. unfold is_quorum. rewrite N.ltb_lt. reflexivity. Qed.
+
+Lemma wf_set_epoch : forall i e, wf i -> wf (set_epoch i e).
+Proof. intros i e [H1 H2 H3 H4 H5 H6 H7]. constructor; simpl; assumption. Qed.
+Lemma isr_set_epoch : forall i e, isr (set_epoch i e) = isr i.
+Proof. reflexivity. Qed.
+Lemma Inv_set_epoch : forall replica i e, Inv replica i -> Inv replica (set_epoch i e).
+Proof. intros replica i e [H1 [H2 H3]]. split; [apply wf_set_epoch; exact H1|]. split; assumption. Qed.
+
+Lemma In_isr : forall i n, In n (isr i) <-> In n (raft_nodes i) /\ ~ In n (keys (removings i)).
+Proof. intros. unfold isr. rewrite filter_In, negb_true_iff, ahas_false. reflexivity. Qed.
+
+(* --- mark_removing --- *)
+Lemma wf_mark : forall i n now, wf i -> In n (raft_nodes i) -> wf (mark_removing i n now).
+Proof.
+  intros i n now [H1 H2 H3 H4 H5 H6 H7] Hn. constructor; simpl; try assumption.
+  - unfold aset. rewrite keys_app, keys_aremove. simpl. apply NoDup_snoc.
+    + apply NoDup_filter. exact H6.
+    + rewrite filter_In, negb_true_iff, N.eqb_neq. tauto.
+  - intros x. unfold aset. rewrite keys_app, keys_aremove, in_app_iff, filter_In. simpl.
+    intros [[Hx _]|[Hx|[]]]; [auto|subst; exact Hn].
+Qed.
+Lemma removings_mark_empty : forall i n now, removings i = [] -> removings (mark_removing i n now) = [(n, (now, raft_id_of i n))].
+Proof. intros i n now H. simpl. rewrite H. reflexivity. Qed.
+
+(* --- add_node --- *)
+Lemma wf_add : forall i n, wf i -> ~ In n (raft_nodes i) -> wf (add_node i n).
+Proof.
+  intros i n [H1 H2 H3 H4 H5 H6 H7] Hn.
+  assert (Hk : ~ In n (keys (raft_ids i))) by (rewrite H3; exact Hn).
+  constructor; simpl.
+  - apply NoDup_snoc; assumption.
+  - unfold aset. rewrite aremove_notin by exact Hk. rewrite keys_app. simpl. apply NoDup_snoc; assumption.
+  - intros x. unfold aset. rewrite aremove_notin by exact Hk. rewrite keys_app. simpl.
+    rewrite !in_app_iff, H3. reflexivity.
+  - unfold aset. rewrite aremove_notin by exact Hk. rewrite map_app. simpl. apply NoDup_snoc; [assumption|].
+    intros Hi. apply in_map_iff in Hi. destruct Hi as [[x id] [He Hi]]. simpl in He. subst.
+    apply H5 in Hi. lia.
+  - intros x id. unfold aset. rewrite aremove_notin by exact Hk. rewrite in_app_iff. simpl.
+    intros [Hi|[Hi|[]]]; [apply H5 in Hi; lia|inversion Hi; lia].
+  - assumption.
+  - intros x Hx. rewrite in_app_iff. left. apply H7. exact Hx.
+Qed.
+Lemma isr_add : forall i n, ~ In n (keys (removings i)) -> isr (add_node i n) = isr i ++ [n].
+Proof.
+  intros i n H. unfold isr. simpl. rewrite filter_app. simpl.
+  apply ahas_false in H. rewrite H. reflexivity.
+Qed.
+
+(* --- drop_node --- *)
+Lemma wf_drop : forall i n, wf i -> wf (drop_node i n).
+Proof.
+  intros i n [H1 H2 H3 H4 H5 H6 H7]. constructor; simpl.
+  - apply NoDup_filter. exact H1.
+  - rewrite keys_aremove. apply NoDup_filter. exact H2.
+  - intros x. rewrite keys_aremove, !filter_In, H3. reflexivity.
+  - unfold aremove. apply NoDup_map_filter. exact H4.
+  - intros x id Hi. apply In_aremove in Hi. apply (H5 x id). tauto.
+  - rewrite keys_aremove. apply NoDup_filter. exact H6.
+  - intros x. rewrite keys_aremove, !filter_In. intros [Hx Hne]. split; [apply H7; exact Hx|exact Hne].
+Qed.
+Lemma isr_drop : forall i n, In n (keys (removings i)) -> isr (drop_node i n) = isr i.
+Proof.
+  intros i n Hn. unfold isr. simpl.
+  induction (raft_nodes i) as [|x l IH]; simpl; [reflexivity|].
+  destruct (x =? n) eqn:E; simpl.
+  - apply N.eqb_eq in E. subst x. apply ahas_In in Hn. rewrite Hn. simpl. exact IH.
+  - assert (Hh : ahas x (aremove n (removings i)) = ahas x (removings i)).
+    { apply N.eqb_neq in E. destruct (ahas x (removings i)) eqn:E2.
+      - apply ahas_In. apply ahas_In in E2. rewrite keys_aremove, filter_In, negb_true_iff, N.eqb_neq. tauto.
+      - apply ahas_false. apply ahas_false in E2. rewrite keys_aremove, filter_In. tauto. }
+    rewrite Hh. destruct (ahas x (removings i)); simpl; rewrite IH; reflexivity.
+Qed.
+Lemma filter_len_le : forall A (f : A -> bool) l, len (filter f l) <= len l.
+Proof.
+  intros. unfold len. induction l as [|x l IH]; simpl; [lia|]. destruct (f x); simpl; lia.
+Qed.
+Lemma len_removings_drop : forall i n, len (removings (drop_node i n)) <= len (removings i).
+Proof.
+  intros. simpl. unfold aremove. apply filter_len_le.
+Qed.
+
+(* ------------------------------------------------------------------------------------------ *)
+(* what one register update may change                                                         *)
+(* ------------------------------------------------------------------------------------------ *)
+Record trans (b v : rinfo) : Prop := mkTrans {
+  tr_max  : max_id b <= max_id v;                                   (* MaxRaftID never decreases *)
+  tr_ids  : forall n id, In (n, id) (raft_ids v) -> In (n, id) (raft_ids b) \/ max_id b < id;
+                                                                    (* an id is kept or is a fresh one above MaxRaftID *)
+  tr_add  : forall x y, In x (raft_nodes v) -> ~ In x (raft_nodes b) ->
+                        In y (raft_nodes v) -> ~ In y (raft_nodes b) -> x = y;   (* at most one node added *)
+  tr_drop : forall x, In x (raft_nodes b) -> ~ In x (raft_nodes v) -> In x (keys (removings b))
+                                                                    (* only a replica marked removing is dropped *)
+}.
+
+Lemma trans_refl : forall i, trans i i.
+Proof. intros. constructor; [lia|auto|intros; contradiction|intros; contradiction]. Qed.
+Lemma trans_set_epoch_r : forall b v e, trans b v -> trans b (set_epoch v e).
+Proof. intros b v e [H1 H2 H3 H4]. constructor; simpl; assumption. Qed.
+Lemma trans_mark : forall i n now, trans i (mark_removing i n now).
+Proof. intros. constructor; simpl; [lia|auto|intros; contradiction|intros; contradiction]. Qed.
+Lemma trans_add : forall i n, trans i (add_node i n).
+Proof.
+  intros. constructor; simpl.
+  - lia.
+  - intros x id Hi. unfold aset in Hi. rewrite in_app_iff in Hi. destruct Hi as [Hi|[Hi|[]]].
+    + left. apply In_aremove in Hi. tauto.
+    + inversion Hi. right. lia.
+  - intros x y Hx Hnx Hy Hny. rewrite in_app_iff in Hx, Hy. simpl in Hx, Hy.
+    destruct Hx as [Hx|[Hx|[]]]; [contradiction|]. destruct Hy as [Hy|[Hy|[]]]; [contradiction|]. congruence.
+  - intros x Hx Hnx. exfalso. apply Hnx. rewrite in_app_iff. left. exact Hx.
+Qed.
+
+(* a value obtained by dropping replicas that are marked removing *)
+Record shrinks (b v : rinfo) : Prop := mkShr {
+  sh_max   : max_id v = max_id b;
+  sh_ep    : epoch v = epoch b;
+  sh_ids   : forall e, In e (raft_ids v) -> In e (raft_ids b);
+  sh_nodes : forall x, In x (raft_nodes v) -> In x (raft_nodes b);
+  sh_drop  : forall x, In x (raft_nodes b) -> ~ In x (raft_nodes v) -> In x (keys (removings b));
+  sh_rm    : len (removings v) <= len (removings b);
+  sh_rmk   : forall x, In x (keys (removings v)) -> In x (keys (removings b))
+}.
+Lemma shrinks_refl : forall i, shrinks i i.
+Proof. intros. constructor; auto; [intros; contradiction|lia]. Qed.
+Lemma shrinks_drop : forall b v n, shrinks b v -> In n (keys (removings b)) -> shrinks b (drop_node v n).
+Proof.
+  intros b v n [H1 H2 H3 H4 H5 H6 H7] Hn. constructor; simpl; try assumption.
+  - intros e He. apply In_aremove in He. apply H3. tauto.
+  - intros x Hx. apply filter_In in Hx. apply H4. tauto.
+  - intros x Hx Hnx. rewrite filter_In, negb_true_iff, N.eqb_neq in Hnx.
+    destruct (N.eq_dec x n) as [->|Hne]; [exact Hn|]. apply H5; [exact Hx|]. intros Hv. apply Hnx. tauto.
+  - assert (H := len_removings_drop v n). simpl in H. lia.
+  - intros x Hx. rewrite keys_aremove in Hx. apply filter_In in Hx. apply H7. tauto.
+Qed.
+Lemma shrinks_trans : forall b v, shrinks b v -> trans b v.
+Proof.
+  intros b v [H1 H2 H3 H4 H5 H6 H7]. constructor.
+  - lia.
+  - intros n id Hi. left. apply H3. exact Hi.
+  - intros x y Hx Hnx. exfalso. apply Hnx. apply H4. exact Hx.
+  - exact H5.
+Qed.
+
+Definition att_ok (replica : N) (a : attempt) : Prop :=
+  Inv replica (a_before a) /\ Inv replica (a_value a) /\ trans (a_before a) (a_value a).
+
+(* the attempts of a run form a chain over the stored register value *)
+Inductive chain : rinfo -> list attempt -> rinfo -> Prop :=
+  | chain_nil : forall c, chain c [] c
+  | chain_fail : forall c a t f, a_before a = c -> a_ok a = false -> chain c t f -> chain c (a :: t) f
+  | chain_ok : forall c a t f e, a_before a = c -> a_ok a = true ->
+                 chain (set_epoch (a_value a) e) t f -> chain c (a :: t) f.
+
+Lemma chain_app : forall c l1 m l2 f, chain c l1 m -> chain m l2 f -> chain c (l1 ++ l2) f.
+Proof.
+  intros c l1 m l2 f H. induction H; simpl; intros H2; [exact H2| |].
+  - apply chain_fail; auto.
+  - eapply chain_ok; eauto.
+Qed.
+
+Lemma reg_update_spec : forall r v g r' o a,
+  reg_update r v g = (r', o, a) ->
+  a_before a = r_info r /\ a_value a = v /\
+  ((o = None /\ r_info r' = r_info r /\ a_ok a = false) \/
+   (exists e, o = Some (set_epoch v e) /\ r_info r' = set_epoch v e /\ a_ok a = true)).
 Proof.
   intros r v g r' o a H. unfold reg_update in H.
-  destruct (0 <? r_fail r); [inversion H; subst; simpl; lia|].
-  destruct (g =? epoch (r_info r)); inversion H; subst; simpl; lia.
+  destruct (0 <? r_fail r).
+  - inversion H; subst; simpl. repeat split; auto.
+  - destruct (g =? epoch (r_info r)); inversion H; subst; simpl.
+    + repeat split; auto. right. eexists. repeat split; reflexivity.
+    + repeat split; auto.
+Qed.
+
+(* specification shared by all decision procedures: called with the caller's copy equal to the stored
+   value, they keep the invariant of the stored value, return the stored value, and every attempt is a
+   permitted change of the value stored at that moment and satisfies the procedure-specific clause P *)
+Definition pspec (replica : N) (P : attempt -> Prop) (r : reg) (o : outcome) : Prop :=
+  let '(_, r', info', atts) := o in
+  Inv replica (r_info r') /\ info' = r_info r' /\
+  Forall (fun a => att_ok replica a /\ P a) atts /\ chain (r_info r) atts (r_info r').
+
+Lemma pspec_noop : forall replica P r c, Inv replica (r_info r) -> pspec replica P r (c, r, r_info r, []).
+Proof. intros. simpl. split; [assumption|]. split; [reflexivity|]. split; constructor. Qed.
+
+(* the common tail of every procedure: one update attempt with a checked value *)
+Lemma pspec_update : forall replica (P : attempt -> Prop) r v c1 c2,
+  Inv replica (r_info r) -> Inv replica v -> trans (r_info r) v ->
+  (forall a, a_before a = r_info r -> a_value a = v -> P a) ->
+  pspec replica P r
+    (match reg_update r v (epoch v) with
+     | (r', Some ns', a) => (c1, r', ns', [a])
+     | (r', None, a) => (c2, r', r_info r, [a])
+     end).
+Proof.
+  intros replica P r v c1 c2 Hi Hv Ht HP.
+  destruct (reg_update r v (epoch v)) as [[r' o] a] eqn:E.
+  apply reg_update_spec in E. destruct E as [Hb [Hval [[Ho [Hr Hk]]|[e [Ho [Hr Hk]]]]]]; subst o; simpl.
+  - rewrite Hr. split; [exact Hi|]. split; [reflexivity|]. split.
+    + constructor; [|constructor]. split; [split; [rewrite Hb; exact Hi|split; [rewrite Hval; exact Hv|rewrite Hb, Hval; exact Ht]]|apply HP; assumption].
+    + apply chain_fail; [exact Hb|exact Hk|constructor].
+  - rewrite Hr. split; [|split; [reflexivity|split]].
+    + apply Inv_set_epoch. exact Hv.
+    + constructor; [|constructor]. split; [split; [rewrite Hb; exact Hi|split; [rewrite Hval; exact Hv|rewrite Hb, Hval; exact Ht]]|apply HP; assumption].
+    + eapply chain_ok; [exact Hb|exact Hk|]. rewrite Hval. constructor.
+Qed.
+
+(* ------------------------------------------------------------------------------------------ *)
+(* the clauses about WHEN a node may be added / a removal may be marked                          *)
+(* ------------------------------------------------------------------------------------------ *)
+Definition new_node (a : attempt) : Prop :=
+  exists x, In x (raft_nodes (a_value a)) /\ ~ In x (raft_nodes (a_before a)).
+Definition new_mark (a : attempt) : Prop :=
+  exists x, In x (keys (removings (a_value a))) /\ ~ In x (keys (removings (a_before a))).
+(* a node is added only when no removal is pending and every current replica answered ready/synced *)
+Definition att_sync (env : answers) (a : attempt) : Prop :=
+  new_node a -> all_ready env (a_before a) = true /\ removings (a_before a) = [].
+(* a removal is marked only when more than replica/2 of the replicas are on registered (alive) nodes *)
+Definition att_alive (replica : N) (cur : list N) (a : attempt) : Prop :=
+  new_mark a -> replica / 2 < count_in cur (raft_nodes (a_before a)).
+(* ... or (balance / node decommission) only when every remaining replica answered ready/synced *)
+Definition att_mark_ready (env : answers) (a : attempt) : Prop :=
+  new_mark a -> all_ready env (a_before a) = true.
+
+Lemma len_zero_ltb : forall A (l : list A), (0 <? len l) = false -> l = [].
+Proof. intros A l H. apply N.ltb_ge in H. apply len_nil_iff. lia. Qed.
+Lemma len_zero_eqb : forall A (l : list A), (len l =? 0) = true -> l = [].
+Proof. intros A l H. apply N.eqb_eq in H. apply len_nil_iff. exact H. Qed.
+
+(* --- addNamespaceToNode --- *)
+Lemma add_to_node_spec : forall replica (P : attempt -> Prop) r nid,
+  Inv replica (r_info r) ->
+  (forall a, a_before a = r_info r -> a_value a = add_node (r_info r) nid ->
+             removings (r_info r) = [] -> ~ In nid (raft_nodes (r_info r)) -> P a) ->
+  pspec replica P r (add_to_node r (r_info r) nid).
+Proof.
+  intros replica P r nid Hi HP. unfold add_to_node.
+  destruct (0 <? len (removings (r_info r))) eqn:E1; [apply pspec_noop; exact Hi|].
+  destruct (nodupb (raft_nodes (r_info r) ++ [nid])) eqn:E2; cbn [negb orb andb]; [|apply pspec_noop; exact Hi].
+  apply len_zero_ltb in E1. apply nodupb_NoDup in E2.
+  assert (Hn : ~ In nid (raft_nodes (r_info r))).
+  { intros Hin. apply NoDup_remove_2 with (l' := []) in E2. apply E2. rewrite app_nil_r. exact Hin. }
+  destruct Hi as [Hw [Hl Hq]].
+  apply pspec_update.
+  - split; [exact Hw|split; assumption].
+  - split; [apply wf_add; assumption|]. split.
+    + simpl. exact Hl.
+    + rewrite isr_add; [rewrite len_app; unfold len at 2; simpl; lia|]. rewrite E1. simpl. tauto.
+  - apply trans_add.
+  - intros a Hb Hv. apply HP; assumption.
+Qed.
+
+(* --- removeNamespaceFromNode --- *)
+Lemma remove_from_node_spec : forall replica (P : attempt -> Prop) now r nid,
+  Inv replica (r_info r) ->
+  (forall a, a_before a = r_info r -> a_value a = mark_removing (r_info r) nid now -> P a) ->
+  pspec replica P r (remove_from_node replica now r (r_info r) nid).
+Proof.
+  intros replica P now r nid Hi HP. unfold remove_from_node.
+  destruct (ahas nid (removings (r_info r))); [apply pspec_noop; exact Hi|].
+  destruct (ahas nid (raft_ids (r_info r))) eqn:E2; cbn [negb orb andb]; [|apply pspec_noop; exact Hi].
+  destruct (is_quorum replica (r_info r)); cbn [negb orb andb]; [|apply pspec_noop; exact Hi].
+  destruct (0 <? len (removings (r_info r))) eqn:E4; [apply pspec_noop; exact Hi|].
+  destruct (is_quorum replica (mark_removing (r_info r) nid now)) eqn:E5; cbn [negb orb andb]; [|apply pspec_noop; exact Hi].
+  destruct (1 <? len (removings (mark_removing (r_info r) nid now))) eqn:E6; cbn [negb orb andb]; [apply pspec_noop; exact Hi|].
+  assert (Hw := Hi). destruct Hw as [Hw _].
+  apply pspec_update.
+  - exact Hi.
+  - split; [|split].
+    + apply wf_mark; [exact Hw|]. apply (wf_ids_keys _ Hw). apply ahas_In. exact E2.
+    + apply N.ltb_ge in E6. exact E6.
+    + apply is_quorum_spec. exact E5.
+  - apply trans_mark.
+  - exact HP.
+Qed.
+
+(* --- removeNamespaceFromRemovings --- *)
+Lemma finish_fold_shrinks : forall env now b l acc,
+  (forall e, In e l -> In (fst e) (keys (removings b))) ->
+  shrinks b (fst acc) -> wf (fst acc) ->
+  let res := fold_left (finish_step env now) l acc in
+  shrinks b (fst res) /\ wf (fst res).
+Proof.
+  intros env now b l. induction l as [|e l IH]; intros acc Hl Hs Hw; cbn [negb orb andb]; [split; assumption|].
+  apply IH.
+  - intros e' He'. apply Hl. right. exact He'.
+  - destruct acc as [cur changed]. destruct e as [nid [rt rid]]. simpl in *.
+    destruct (rt =? 0); [exact Hs|]. destruct (now - rt <? wait_removing); [exact Hs|].
+    destruct (joined_or_err env cur nid); [exact Hs|].
+    destruct (len (filter (fun x : N => negb (x =? nid)) (raft_nodes cur)) <? 1); [exact Hs|]. simpl.
+    apply shrinks_drop; [exact Hs|]. apply (Hl (nid, (rt, rid))). left. reflexivity.
+  - destruct acc as [cur changed]. destruct e as [nid [rt rid]]. simpl in *.
+    destruct (rt =? 0); [exact Hw|]. destruct (now - rt <? wait_removing); [exact Hw|].
+    destruct (joined_or_err env cur nid); [exact Hw|].
+    destruct (len (filter (fun x : N => negb (x =? nid)) (raft_nodes cur)) <? 1); [exact Hw|]. simpl.
+    apply wf_drop. exact Hw.
+Qed.
+
+Lemma remove_from_removings_spec : forall replica (P : attempt -> Prop) env now r,
+  Inv replica (r_info r) ->
+  (forall a, a_before a = r_info r -> shrinks (r_info r) (a_value a) -> P a) ->
+  pspec replica P r (remove_from_removings replica env now r (r_info r)).
+Proof.
+  intros replica P env now r Hi HP. unfold remove_from_removings.
+  destruct (fold_left (finish_step env now) (removings (r_info r)) (r_info r, false)) as [ns changed] eqn:E.
+  assert (Hf := finish_fold_shrinks env now (r_info r) (removings (r_info r)) (r_info r, false)).
+  simpl in Hf. rewrite E in Hf. simpl in Hf.
+  destruct Hf as [Hs Hw].
+  { intros e He. apply (in_map fst) in He. exact He. }
+  { apply shrinks_refl. }
+  { destruct Hi as [Hw _]. exact Hw. }
+  destruct changed; cbn [negb orb andb]; [|apply pspec_noop; exact Hi].
+  destruct (is_quorum replica ns) eqn:Eq; [|apply pspec_noop; exact Hi].
+  apply pspec_update.
+  - exact Hi.
+  - split; [exact Hw|]. split.
+    + destruct Hi as [_ [Hl _]]. assert (H := sh_rm _ _ Hs). lia.
+    + apply is_quorum_spec. exact Eq.
+  - apply shrinks_trans. exact Hs.
+  - intros a Hb Hv. apply HP; [exact Hb|]. rewrite Hv. exact Hs.
+Qed.
+
+(* --- handleNamespaceMigrate --- *)
+Lemma mig_loop_nonempty : forall replica env cur now l alive ns chg a' ns' c',
+  removings ns <> [] ->
+  mig_loop replica env cur now l alive ns chg = Some (a', ns', c') -> ns' = ns.
+Proof.
+  intros replica env cur now l. induction l as [|rp l IH]; intros alive ns chg a' ns' c' Hne H; simpl in H.
+  - inversion H. reflexivity.
+  - destruct (mem rp cur).
+    + destruct (synced_of env rp); [eapply IH; eauto|discriminate].
+    + destruct (ahas rp (removings ns)); [eapply IH; eauto|].
+      assert (E : (len (removings ns) =? 0) = false).
+      { apply N.eqb_neq. intros H0. apply len_nil_iff in H0. contradiction. }
+      rewrite E in H. simpl in H. eapply IH; eauto.
+Qed.
+
+Lemma mig_loop_alive : forall replica env cur now l alive ns chg a' ns' c',
+  mig_loop replica env cur now l alive ns chg = Some (a', ns', c') -> a' = alive + count_in cur l.
+Proof.
+  intros replica env cur now l. induction l as [|rp l IH]; intros alive ns chg a' ns' c' H; simpl in H.
+  - inversion H. unfold count_in, len. simpl. lia.
+  - unfold count_in. simpl. destruct (mem rp cur).
+    + destruct (synced_of env rp); [|discriminate]. apply IH in H. unfold count_in in H. unfold len in *. simpl. lia.
+    + fold (count_in cur l).
+      destruct (ahas rp (removings ns)); [eapply IH; eauto|].
+      destruct ((len (removings ns) =? 0) && (replica / 2 + 1 <? len (isr ns))); eapply IH; eauto.
+Qed.
+
+Lemma mig_loop_empty : forall replica env cur now l alive ns chg a' ns' c',
+  removings ns = [] ->
+  mig_loop replica env cur now l alive ns chg = Some (a', ns', c') ->
+  ns' = ns \/ exists x, In x l /\ ns' = mark_removing ns x now.
+Proof.
+  intros replica env cur now l. induction l as [|rp l IH]; intros alive ns chg a' ns' c' He H; simpl in H.
+  - inversion H. left. reflexivity.
+  - destruct (mem rp cur).
+    + destruct (synced_of env rp); [|discriminate].
+      apply IH in H; [|exact He]. destruct H as [H|[x [Hx H]]]; [left; exact H|right; exists x; split; [right; exact Hx|exact H]].
+    + destruct (ahas rp (removings ns)).
+      * apply IH in H; [|exact He]. destruct H as [H|[x [Hx H]]]; [left; exact H|right; exists x; split; [right; exact Hx|exact H]].
+      * destruct ((len (removings ns) =? 0) && (replica / 2 + 1 <? len (isr ns))).
+        -- apply mig_loop_nonempty in H.
+           ++ right. exists rp. split; [left; reflexivity|exact H].
+           ++ simpl. rewrite He. discriminate.
+        -- apply IH in H; [|exact He]. destruct H as [H|[x [Hx H]]]; [left; exact H|right; exists x; split; [right; exact Hx|exact H]].
+Qed.
+
+Lemma migrate_tail : forall replica (P : attempt -> Prop) r ns2 chg2,
+  Inv replica (r_info r) -> wf ns2 -> trans (r_info r) ns2 ->
+  (forall a, a_before a = r_info r -> a_value a = ns2 -> P a) ->
+  pspec replica P r
+    (if chg2 && is_quorum replica ns2 then
+       if 1 <? len (removings ns2) then (CConfInvalid, r, r_info r, [])
+       else match reg_update r ns2 (epoch ns2) with
+            | (r', Some ns', a) => (COk, r', ns', [a])
+            | (r', None, a) => (CRegUnstable, r', r_info r, [a])
+            end
+     else (CWaiting, r, r_info r, [])).
+Proof.
+  intros replica P r ns2 chg2 Hi Hw Ht HP.
+  destruct chg2; cbn [andb]; [|apply pspec_noop; exact Hi].
+  destruct (is_quorum replica ns2) eqn:Eq; [|apply pspec_noop; exact Hi].
+  destruct (1 <? len (removings ns2)) eqn:E1; [apply pspec_noop; exact Hi|].
+  apply pspec_update; [exact Hi| |exact Ht|exact HP].
+  split; [exact Hw|]. split; [apply N.ltb_ge in E1; exact E1|apply is_quorum_spec; exact Eq].
+Qed.
+
+Lemma no_new_node_same : forall a, raft_nodes (a_value a) = raft_nodes (a_before a) -> ~ new_node a.
+Proof. intros a H [x [H1 H2]]. rewrite H in H1. contradiction. Qed.
+Lemma no_new_mark_same : forall a, removings (a_value a) = removings (a_before a) -> ~ new_mark a.
+Proof. intros a H [x [H1 H2]]. rewrite H in H1. contradiction. Qed.
+
+Lemma handle_migrate_spec : forall replica env now r nepoch cur ep place,
+  Inv replica (r_info r) ->
+  pspec replica (fun a => att_sync env a /\ att_alive replica cur a) r
+        (handle_migrate replica env now r nepoch (r_info r) cur ep place).
+Proof.
+  intros replica env now r nepoch cur ep place Hi. unfold handle_migrate.
+  destruct (negb (ep =? nepoch)); [apply pspec_noop; exact Hi|].
+  destruct (0 <? len (removings (r_info r))) eqn:E0; [apply pspec_noop; exact Hi|].
+  apply len_zero_ltb in E0.
+  destruct (mig_loop replica env cur now (raft_nodes (r_info r)) 0 (r_info r) false) as [[[alive ns] chg]|] eqn:EL;
+    [|apply pspec_noop; exact Hi].
+  assert (Ha := mig_loop_alive _ _ _ _ _ _ _ _ _ _ _ EL). rewrite N.add_0_l in Ha.
+  assert (Hc := mig_loop_empty _ _ _ _ _ _ _ _ _ _ _ E0 EL).
+  assert (Hw : wf (r_info r)) by (destruct Hi as [Hw _]; exact Hw).
+  destruct Hc as [Hc|[x [Hx Hc]]]; subst ns.
+  - (* nothing marked *)
+    rewrite E0. change (len (@nil (N * (N * N)))) with 0. cbn [N.ltb N.eqb N.compare andb].
+    rewrite andb_false_r.
+    destruct (all_ready env (r_info r)) eqn:Er.
+    + destruct (alive <? replica).
+      * destruct (alloc_node place cur (r_info r)) as [[n|]|] eqn:Ea.
+        -- (* add n *)
+           assert (Hn : ~ In n (raft_nodes (r_info r))).
+           { unfold alloc_node in Ea. destruct place as [| |l]; try discriminate.
+             destruct (find (fun n0 : N => negb (mem n0 (raft_nodes (r_info r)))) l) eqn:Ef; [|discriminate].
+             apply find_some in Ef. destruct Ef as [_ Ef]. destruct (mem n0 cur); inversion Ea; subst.
+             apply negb_true_iff in Ef. apply mem_false in Ef. exact Ef. }
+           apply migrate_tail; [exact Hi|apply wf_add; assumption|apply trans_add|].
+           intros a Hb Hv. split.
+           ++ intros _. rewrite Hb. split; assumption.
+           ++ intros Hm. exfalso. revert Hm. apply no_new_mark_same. rewrite Hb, Hv. reflexivity.
+        -- apply migrate_tail; [exact Hi|exact Hw|apply trans_refl|].
+           intros a Hb Hv. split; intros Hm; exfalso; revert Hm;
+             [apply no_new_node_same|apply no_new_mark_same]; rewrite Hb, Hv; reflexivity.
+        -- apply pspec_noop. exact Hi.
+      * apply migrate_tail; [exact Hi|exact Hw|apply trans_refl|].
+        intros a Hb Hv. split; intros Hm; exfalso; revert Hm;
+          [apply no_new_node_same|apply no_new_mark_same]; rewrite Hb, Hv; reflexivity.
+    + apply migrate_tail; [exact Hi|exact Hw|apply trans_refl|].
+      intros a Hb Hv. split; intros Hm; exfalso; revert Hm;
+        [apply no_new_node_same|apply no_new_mark_same]; rewrite Hb, Hv; reflexivity.
+  - (* replica x marked *)
+    rewrite (removings_mark_empty _ _ _ E0).
+    change (len [(x, (now, raft_id_of (r_info r) x))]) with 1. cbn [N.ltb N.eqb N.compare Pos.compare Pos.compare_cont andb].
+    destruct (alive <=? replica / 2) eqn:Eal; [apply pspec_noop; exact Hi|].
+    rewrite andb_true_r.
+    destruct (len cur <? replica); [apply pspec_noop; exact Hi|].
+    apply migrate_tail; [exact Hi|apply wf_mark; assumption|apply trans_mark|].
+    intros a Hb Hv. split.
+    + intros Hm. exfalso. revert Hm. apply no_new_node_same. rewrite Hb, Hv. reflexivity.
+    + intros _. rewrite Hb. apply N.leb_gt in Eal. lia.
+Qed.
+
+(* ------------------------------------------------------------------------------------------ *)
+(* composing procedures: specification of a whole event                                        *)
+(* ------------------------------------------------------------------------------------------ *)
+Definition sspec (replica : N) (P : attempt -> Prop) (r r' : reg) (atts : list attempt) : Prop :=
+  Inv replica (r_info r') /\ Forall (fun a => att_ok replica a /\ P a) atts /\ chain (r_info r) atts (r_info r').
+
+Lemma sspec_nil : forall replica P r, Inv replica (r_info r) -> sspec replica P r r [].
+Proof. intros. split; [assumption|]. split; constructor. Qed.
+Lemma sspec_same_info : forall replica P r r', r_info r' = r_info r -> Inv replica (r_info r) -> sspec replica P r r' [].
+Proof. intros replica P r r' H Hi. split; [rewrite H; assumption|]. split; [constructor|rewrite H; constructor]. Qed.
+Lemma pspec_sspec : forall replica P r c r' info' atts,
+  pspec replica P r (c, r', info', atts) -> sspec replica P r r' atts /\ info' = r_info r'.
+Proof. intros replica P r c r' info' atts [H1 [H2 [H3 H4]]]. split; [split; [|split]; assumption|assumption]. Qed.
+Lemma sspec_app : forall replica P r r1 r2 w1 w2,
+  sspec replica P r r1 w1 -> sspec replica P r1 r2 w2 -> sspec replica P r r2 (w1 ++ w2).
+Proof.
+  intros replica P r r1 r2 w1 w2 [A1 [A2 A3]] [B1 [B2 B3]]. split; [exact B1|]. split.
+  - apply Forall_app. split; assumption.
+  - eapply chain_app; eassumption.
+Qed.
+Lemma sspec_weaken : forall replica (P Q : attempt -> Prop) r r' atts,
+  (forall a, P a -> Q a) -> sspec replica P r r' atts -> sspec replica Q r r' atts.
+Proof.
+  intros replica P Q r r' atts H [A1 [A2 A3]]. split; [exact A1|]. split; [|exact A3].
+  eapply Forall_impl; [|exact A2]. intros a [Ha Hp]. split; [exact Ha|apply H; exact Hp].
+Qed.
+
+Lemma filter_len_mono : forall A (f g : A -> bool) l,
+  (forall x, f x = true -> g x = true) -> len (filter f l) <= len (filter g l).
+Proof.
+  intros A f g l H. unfold len. induction l as [|x l IH]; simpl; [lia|].
+  destruct (f x) eqn:Ef; [rewrite (H x Ef); simpl; lia|destruct (g x); simpl; lia].
+Qed.
+Lemma count_in_mono_cur : forall c1 c2 l, (forall x, In x c1 -> In x c2) -> count_in c1 l <= count_in c2 l.
+Proof.
+  intros c1 c2 l H. unfold count_in. apply filter_len_mono. intros x Hx. apply mem_In. apply H. apply mem_In. exact Hx.
+Qed.
+Lemma count_in_incl : forall cur l1 l2, NoDup l1 -> (forall x, In x l1 -> In x l2) -> count_in cur l1 <= count_in cur l2.
+Proof.
+  intros cur l1 l2 Hn Hi. unfold count_in, len.
+  assert (H : (length (filter (fun n => mem n cur) l1) <= length (filter (fun n => mem n cur) l2))%nat).
+  { apply NoDup_incl_length; [apply NoDup_filter; exact Hn|].
+    intros x Hx. apply filter_In in Hx. apply filter_In. split; [apply Hi; tauto|tauto]. }
+  lia.
+Qed.
+
+Definition check_P (s : st) (a : attempt) : Prop :=
+  att_sync (s_ans s) a /\ att_alive (s_replica s) (s_nodes s) a.
+
+Definition res_spec (P : attempt -> Prop) (s : st) (res : st * bool * list attempt) : Prop :=
+  let '(s', _, atts) := res in
+  s_replica s' = s_replica s /\ sspec (s_replica s) P (s_reg s) (s_reg s') atts.
+
+Lemma check_finish_spec : forall P s full panic r unst w ok ready atts,
+  sspec (s_replica s) P (s_reg s) r atts ->
+  res_spec P s (check_finish s full panic r unst w ok ready atts).
+Proof. intros. unfold check_finish, res_spec. simpl. split; [reflexivity|assumption]. Qed.
+
+Lemma check_planned_spec : forall s full pa ac need r unst w ok ready atts,
+  sspec (s_replica s) (check_P s) (s_reg s) r atts ->
+  ((s_replica s <? ac) && negb need = true ->
+   s_replica s / 2 < count_in (s_nodes s) (raft_nodes (r_info r))) ->
+  res_spec (check_P s) s (check_planned s full pa ac need r (r_info r) unst w ok ready atts).
+Proof.
+  intros s full pa ac need r unst w ok ready atts Hs Hal. unfold check_planned.
+  destruct ((s_replica s <? ac) && negb need) eqn:Eg; [|apply check_finish_spec; exact Hs].
+  destruct ((len (s_rmnodes s) =? 0) && all_ready (s_ans s) (r_info r)); [|apply check_finish_spec; exact Hs].
+  destruct (decide_unwanted pa (r_info r)) as [[n|]|]; try (apply check_finish_spec; exact Hs).
+  assert (Hi : Inv (s_replica s) (r_info r)) by (destruct Hs as [Hi _]; exact Hi).
+  assert (Hr := remove_from_node_spec (s_replica s) (check_P s) (s_now s) r n Hi).
+  destruct (remove_from_node (s_replica s) (s_now s) r (r_info r) n) as [[[c r'] i'] w3].
+  apply check_finish_spec. eapply sspec_app; [exact Hs|].
+  apply pspec_sspec with (c := c) (info' := i'). apply Hr.
+  intros a Hb Hv. split.
+  - intros Hm. exfalso. revert Hm. apply no_new_node_same. rewrite Hb, Hv. reflexivity.
+  - intros _. rewrite Hb. apply Hal. reflexivity.
+Qed.
+
+Lemma shrinks_isr_nodes : forall b v, shrinks b v -> forall x, In x (isr b) -> In x (raft_nodes v).
+Proof.
+  intros b v Hs x Hx. apply In_isr in Hx. destruct Hx as [Hx Hn].
+  destruct (in_dec N.eq_dec x (raft_nodes v)) as [H|H]; [exact H|].
+  exfalso. apply Hn. apply (sh_drop _ _ Hs); assumption.
+Qed.
+
+Lemma remove_from_removings_nodes : forall replica env now r c r1 i1 w1,
+  wf (r_info r) ->
+  remove_from_removings replica env now r (r_info r) = (c, r1, i1, w1) ->
+  forall x, In x (isr (r_info r)) -> In x (raft_nodes (r_info r1)).
+Proof.
+  intros replica env now r c r1 i1 w1 Hw H x Hx. unfold remove_from_removings in H.
+  destruct (fold_left (finish_step env now) (removings (r_info r)) (r_info r, false)) as [ns changed] eqn:E.
+  assert (Hf := finish_fold_shrinks env now (r_info r) (removings (r_info r)) (r_info r, false)).
+  simpl in Hf. rewrite E in Hf. simpl in Hf.
+  destruct Hf as [Hs _].
+  { intros e He. apply (in_map fst) in He. exact He. }
+  { apply shrinks_refl. }
+  { exact Hw. }
+  assert (Hx0 : In x (raft_nodes (r_info r))) by (apply In_isr in Hx; tauto).
+  destruct (changed && is_quorum replica ns).
+  - destruct (reg_update r ns (epoch ns)) as [[r' o] a] eqn:Eu. apply reg_update_spec in Eu.
+    destruct Eu as [_ [_ [[Ho [Hr _]]|[e [Ho [Hr _]]]]]]; subst o; inversion H; subst.
+    + rewrite Hr. exact Hx0.
+    + rewrite Hr. simpl. apply (shrinks_isr_nodes _ _ Hs). exact Hx.
+  - inversion H; subst. exact Hx0.
+Qed.
+
+Lemma shrink_check_P : forall s a, shrinks (a_before a) (a_value a) -> check_P s a.
+Proof.
+  intros s a Hs. split.
+  - intros [x [H1 H2]]. exfalso. apply H2. apply (sh_nodes _ _ Hs). exact H1.
+  - intros [x [H1 H2]]. exfalso. apply H2. apply (sh_rmk _ _ Hs). exact H1.
+Qed.
+
+Lemma avail_sub : forall s x, In x (avail_nodes s) -> In x (s_nodes s).
+Proof. intros s x H. unfold avail_nodes in H. apply filter_In in H. tauto. Qed.
+
+Lemma do_check_spec : forall s full pa pv,
+  Inv (s_replica s) (r_info (s_reg s)) ->
+  res_spec (check_P s) s (do_check s full pa pv).
+Proof.
+  intros s full pa pv Hi. unfold do_check. cbv zeta.
+  destruct (len (s_nodes s) <=? s_stable s / 2).
+  { apply check_finish_spec. apply sspec_nil. exact Hi. }
+  (* removings first *)
+  set (X := if 0 <? len (removings (r_info (s_reg s)))
+            then remove_from_removings (s_replica s) (s_ans s) (s_now s) (s_reg s) (r_info (s_reg s))
+            else (CNone, s_reg s, r_info (s_reg s), [])).
+  assert (HX : pspec (s_replica s) (check_P s) (s_reg s) X /\
+               (forall x, In x (isr (r_info (s_reg s))) -> In x (raft_nodes (r_info (snd (fst (fst X))))))).
+  { unfold X. destruct (0 <? len (removings (r_info (s_reg s)))).
+    - split.
+      + apply remove_from_removings_spec; [exact Hi|]. intros a Hb Hs. apply shrink_check_P. rewrite Hb. exact Hs.
+      + destruct (remove_from_removings (s_replica s) (s_ans s) (s_now s) (s_reg s) (r_info (s_reg s)))
+          as [[[c r1] i1] w1] eqn:E. simpl.
+        eapply remove_from_removings_nodes; [|exact E]. destruct Hi as [Hw _]. exact Hw.
+    - split; [apply pspec_noop; exact Hi|]. simpl. intros x Hx. apply In_isr in Hx. tauto. }
+  clearbody X. destruct X as [[[c1 r1] info1] w1]. destruct HX as [HX Hnodes]. simpl in Hnodes.
+  apply pspec_sspec in HX. destruct HX as [H1 Hinfo1]. subst info1.
+  assert (Hi1 : Inv (s_replica s) (r_info r1)) by (destruct H1 as [H _]; exact H).
+  (* the alive-count fact used by the planned removal *)
+  assert (Hal : forall need, (s_replica s <? count_in (s_nodes s) (isr (r_info (s_reg s)))) && negb need = true ->
+                 s_replica s / 2 < count_in (s_nodes s) (raft_nodes (r_info r1))).
+  { intros need Hg. apply andb_true_iff in Hg. destruct Hg as [Hg _]. apply N.ltb_lt in Hg.
+    assert (Hc : count_in (s_nodes s) (isr (r_info (s_reg s))) <= count_in (s_nodes s) (raft_nodes (r_info r1))).
+    { apply count_in_incl; [|exact Hnodes]. unfold isr. apply NoDup_filter. destruct Hi as [Hw _]. apply (wf_nodes_nodup _ Hw). }
+    assert (Hd : s_replica s / 2 <= s_replica s) by (apply N.div_le_upper_bound; lia). lia. }
+  set (need := (len (isr (r_info (s_reg s))) <? s_replica s) ||
+               negb (forallb (fun n : N => mem n (s_nodes s)) (isr (r_info (s_reg s))))) in *.
+  destruct (need && s_auto s) eqn:Ena.
+  - assert (Hneed : need = true) by (apply andb_true_iff in Ena; tauto).
+    destruct (s_waiting s) as [ft|].
+    + destruct (ft <? s_now s - wait_migrate).
+      * assert (Hm := handle_migrate_spec (s_replica s) (s_ans s) (s_now s) r1 (s_nepoch s) (avail_nodes s) (s_nepoch s) pv Hi1).
+        destruct (handle_migrate (s_replica s) (s_ans s) (s_now s) r1 (s_nepoch s) (r_info r1) (avail_nodes s) (s_nepoch s) pv)
+          as [[[c r2] info2] w2].
+        apply pspec_sspec in Hm. destruct Hm as [H2 Hinfo2]. subst info2.
+        assert (H12 : sspec (s_replica s) (check_P s) (s_reg s) r2 (w1 ++ w2)).
+        { eapply sspec_app; [exact H1|]. eapply sspec_weaken; [|exact H2].
+          intros a [Ha Hb]. split; [exact Ha|]. intros Hm. apply Hb in Hm.
+          assert (Hc := count_in_mono_cur (avail_nodes s) (s_nodes s) (raft_nodes (a_before a)) (avail_sub s)). lia. }
+        destruct c; try (apply check_finish_spec; exact H12).
+        apply check_planned_spec; [exact H12|]. rewrite Hneed. rewrite andb_false_r. discriminate.
+      * apply check_planned_spec; [exact H1|]. apply Hal.
+    + apply check_finish_spec. exact H1.
+  - destruct (all_ready (s_ans s) (r_info r1)).
+    + apply check_planned_spec; [exact H1|]. apply Hal.
+    + apply check_finish_spec. exact H1.
+Qed.
+
+(* ------------------------------------------------------------------------------------------ *)
+(* rebalanceNamespace / processRemovingNodes                                                   *)
+(* ------------------------------------------------------------------------------------------ *)
+Definition bal_P (env : answers) (a : attempt) : Prop := att_sync env a /\ att_mark_ready env a.
+
+Lemma nth_error_split_firstn : forall A (t : list A) k x,
+  nth_error t k = Some x -> t = firstn k t ++ x :: skipn (S k) t.
+Proof.
+  intros A t. induction t as [|y t IH]; intros k x H; destruct k; simpl in *; try discriminate.
+  - inversion H. reflexivity.
+  - f_equal. apply IH. exact H.
+Qed.
+
+Lemma swap_to_front_perm : forall l idx, Permutation (swap_to_front l idx) l.
+Proof.
+  intros l idx. unfold swap_to_front. destruct l as [|h t]; [constructor|].
+  destruct (nth_error (h :: t) idx) as [x|] eqn:E; [|apply Permutation_refl].
+  destruct idx as [|k]; simpl in E.
+  - inversion E; subst. simpl. apply Permutation_refl.
+  - assert (Ht := nth_error_split_firstn _ _ _ _ E).
+    replace (S k - 1)%nat with k by lia.
+    rewrite Ht at 3. simpl.
+    eapply perm_trans; [apply perm_skip; apply Permutation_sym; apply Permutation_middle|].
+    eapply perm_trans; [apply perm_swap|]. apply perm_skip. apply Permutation_middle.
+Qed.
+
+Lemma Permutation_filter' : forall A (f : A -> bool) l1 l2, Permutation l1 l2 -> Permutation (filter f l1) (filter f l2).
+Proof.
+  intros A f l1 l2 H. induction H; simpl.
+  - constructor.
+  - destruct (f x); [apply perm_skip|]; assumption.
+  - destruct (f x); destruct (f y); try apply Permutation_refl. apply perm_swap.
+  - eapply perm_trans; eassumption.
+Qed.
+
+Definition with_nodes (i : rinfo) (l : list N) : rinfo := mkInfo l (raft_ids i) (removings i) (max_id i) (epoch i).
+
+Lemma Inv_perm : forall replica i l, Inv replica i -> Permutation l (raft_nodes i) -> Inv replica (with_nodes i l).
+Proof.
+  intros replica i l [[H1 H2 H3 H4 H5 H6 H7] [Hl Hq]] Hp. split; [constructor; simpl; try assumption|split].
+  - eapply Permutation_NoDup; [apply Permutation_sym; exact Hp|exact H1].
+  - intros n. rewrite H3. split; intros H; [eapply Permutation_in; [apply Permutation_sym; exact Hp|exact H]|eapply Permutation_in; [exact Hp|exact H]].
+  - intros n Hn. eapply Permutation_in; [apply Permutation_sym; exact Hp|]. apply H7. exact Hn.
+  - exact Hl.
+  - assert (Hpi : Permutation (isr (with_nodes i l)) (isr i)).
+    { unfold isr. simpl. apply Permutation_filter'. exact Hp. }
+    apply Permutation_length in Hpi. unfold len in *. lia.
+Qed.
+Lemma trans_perm : forall i l, Permutation l (raft_nodes i) -> trans i (with_nodes i l).
+Proof.
+  intros i l Hp. constructor; simpl; [lia|auto| |].
+  - intros x y Hx Hnx. exfalso. apply Hnx. eapply Permutation_in; [exact Hp|exact Hx].
+  - intros x Hx Hnx. exfalso. apply Hnx. eapply Permutation_in; [apply Permutation_sym; exact Hp|exact Hx].
+Qed.
+
+Lemma swap_loop_spec : forall replica (P : attempt -> Prop) leader orig idx ns r moved atts0,
+  (forall a, removings (a_value a) = removings (a_before a) ->
+             (forall x, In x (raft_nodes (a_value a)) -> In x (raft_nodes (a_before a))) -> P a) ->
+  ns = r_info r -> Inv replica (r_info r) ->
+  exists w, snd (swap_loop leader orig idx ns r moved atts0) = atts0 ++ w /\
+            sspec replica P r (snd (fst (fst (swap_loop leader orig idx ns r moved atts0)))) w.
+Proof.
+  intros replica P leader orig. induction orig as [|x rest IH]; intros idx ns r moved atts0 HP Hns Hi; simpl.
+  - exists []. rewrite app_nil_r. split; [reflexivity|apply sspec_nil; exact Hi].
+  - destruct (x =? leader); [|apply IH; assumption].
+    set (ns1 := mkInfo (swap_to_front (raft_nodes ns) idx) (raft_ids ns) (removings ns) (max_id ns) (epoch ns)).
+    assert (Hperm : Permutation (raft_nodes ns1) (raft_nodes (r_info r))).
+    { subst ns. simpl. apply swap_to_front_perm. }
+    assert (Hv : Inv replica ns1) by (subst ns; apply (Inv_perm replica (r_info r) _ Hi Hperm)).
+    assert (Ht : trans (r_info r) ns1) by (subst ns; apply (trans_perm (r_info r) _ Hperm)).
+    destruct (reg_update r ns1 (epoch ns)) as [[r' o] a] eqn:Eu. apply reg_update_spec in Eu.
+    destruct Eu as [Hb [Hval [[Ho [Hr Hk]]|[e [Ho [Hr Hk]]]]]]; subst o.
+    + simpl. exists [a]. split; [reflexivity|]. split; [rewrite Hr; exact Hi|]. split.
+      * constructor; [|constructor]. split; [split; [rewrite Hb; exact Hi|split; [rewrite Hval; exact Hv|rewrite Hb, Hval; exact Ht]]|].
+        apply HP; [rewrite Hb, Hval; subst ns; reflexivity|].
+        intros y Hy. rewrite Hb. rewrite Hval in Hy. eapply Permutation_in; [exact Hperm|exact Hy].
+      * rewrite Hr. apply chain_fail; [exact Hb|exact Hk|constructor].
+    + assert (Hi' : Inv replica (r_info r')) by (rewrite Hr; apply Inv_set_epoch; exact Hv).
+      simpl. rewrite <- Hr.
+      destruct (IH (S idx) (r_info r') r' true (atts0 ++ [a]) HP eq_refl Hi') as [w [Hw1 Hw2]].
+      exists (a :: w). split; [rewrite Hw1, <- app_assoc; reflexivity|].
+      destruct Hw2 as [A1 [A2 A3]]. split; [exact A1|]. split.
+      * constructor; [|exact A2]. split; [split; [rewrite Hb; exact Hi|split; [rewrite Hval; exact Hv|rewrite Hb, Hval; exact Ht]]|].
+        apply HP; [rewrite Hb, Hval; subst ns; reflexivity|].
+        intros y Hy. rewrite Hb. rewrite Hval in Hy. eapply Permutation_in; [exact Hperm|exact Hy].
+      * apply chain_ok with (e := e); [exact Hb|exact Hk|]. rewrite Hval, <- Hr. exact A3.
+Qed.
+
+Lemma add_and_wait_spec : forall replica env r place,
+  Inv replica (r_info r) ->
+  let '(res, r', w) := add_and_wait env r place in
+  sspec replica (bal_P env) r r' w /\ (res = AWOk -> r' = r /\ w = []).
+Proof.
+  intros replica env r place Hi. unfold add_and_wait.
+  destruct place as [| |l]; try (split; [apply sspec_nil; exact Hi|intros; try discriminate; auto]).
+  destruct (filter (fun n : N => negb (mem n (raft_nodes (r_info r)))) l) as [|nid rest];
+    [split; [apply sspec_nil; exact Hi|discriminate]|].
+  destruct (node_full_ready env (r_info r) nid); [split; [apply sspec_nil; exact Hi|auto]|].
+  destruct (mem nid (raft_nodes (r_info r))); [split; [apply sspec_nil; exact Hi|discriminate]|].
+  destruct (all_ready env (r_info r)) eqn:Er; cbn [negb]; [|split; [apply sspec_nil; exact Hi|discriminate]].
+  assert (Ha := add_to_node_spec replica (bal_P env) r nid Hi).
+  destruct (add_to_node r (r_info r) nid) as [[[c r'] i'] w].
+  split; [|discriminate].
+  apply pspec_sspec with (c := c) (info' := i'). apply Ha.
+  intros a Hb Hv Hrm Hn. split.
+  - intros _. rewrite Hb. split; assumption.
+  - intros Hm. exfalso. revert Hm. apply no_new_mark_same. rewrite Hb, Hv. reflexivity.
+Qed.
+
+Definition res3_spec (P : attempt -> Prop) (s : st) {B} (res : st * B * list attempt) : Prop :=
+  let '(s', _, atts) := res in
+  s_replica s' = s_replica s /\ sspec (s_replica s) P (s_reg s) (s_reg s') atts.
+
+Lemma bal_leader_spec : forall s expected mv r moved atts,
+  sspec (s_replica s) (bal_P (s_ans s)) (s_reg s) r atts ->
+  res3_spec (bal_P (s_ans s)) s (bal_leader s expected mv (r_info r) r moved atts).
+Proof.
+  intros s expected mv r moved atts Hs. unfold bal_leader.
+  assert (Hi : Inv (s_replica s) (r_info r)) by (destruct Hs as [Hi _]; exact Hi).
+  destruct (0 <? len (removings (r_info r))); [simpl; split; [reflexivity|exact Hs]|].
+  destruct expected as [|leader rest]; [simpl; split; [reflexivity|exact Hs]|].
+  destruct (ahas leader (removings (r_info r))); [simpl; split; [reflexivity|exact Hs]|].
+  destruct ((len mv =? 0) && (s_replica s <=? len (isr (r_info r))) &&
+            negb match raft_nodes (r_info r) with [] => false | x :: _ => x =? leader end);
+    [|simpl; split; [reflexivity|exact Hs]].
+  destruct (raft_nodes (r_info r)) as [|h t] eqn:En; [simpl; split; [reflexivity|exact Hs]|].
+  rewrite <- En.
+  destruct (swap_loop_spec (s_replica s) (bal_P (s_ans s)) leader (raft_nodes (r_info r)) 0 (r_info r) r moved atts)
+    as [w [Hw1 Hw2]].
+  { intros a Hrm Hnodes. split.
+    - intros [x [H1 H2]]. exfalso. apply H2. apply Hnodes. exact H1.
+    - intros Hm. exfalso. revert Hm. apply no_new_mark_same. exact Hrm. }
+  { reflexivity. }
+  { exact Hi. }
+  destruct (swap_loop leader (raft_nodes (r_info r)) 0 (r_info r) r moved atts) as [[[[failed ns'] r'] moved'] atts'].
+  simpl in Hw1, Hw2. subst atts'.
+  destruct failed; simpl; (split; [reflexivity|eapply sspec_app; eassumption]).
+Qed.
+
+Lemma rebalance_spec : forall s place,
+  Inv (s_replica s) (r_info (s_reg s)) ->
+  res3_spec (bal_P (s_ans s)) s (rebalance s place).
+Proof.
+  intros s place Hi. unfold rebalance. cbv zeta.
+  assert (Hnil : res3_spec (bal_P (s_ans s)) s (s, BRet false false, @nil attempt))
+    by (simpl; split; [reflexivity|apply sspec_nil; exact Hi]).
+  assert (Hnil' : forall b : bres, res3_spec (bal_P (s_ans s)) s (s, b, @nil attempt))
+    by (intros b; simpl; split; [reflexivity|apply sspec_nil; exact Hi]).
+  destruct (s_unstable s); [apply Hnil'|].
+  destruct (0 <? len (s_rmnodes s)); [apply Hnil'|].
+  destruct (0 <? len (removings (r_info (s_reg s)))); [apply Hnil'|].
+  destruct (all_ready (s_ans s) (r_info (s_reg s))) eqn:Er; cbn [negb]; [|apply Hnil'].
+  destruct place as [| |expected]; try apply Hnil'.
+  destruct (filter (fun n : N => negb (mem n expected)) (isr (r_info (s_reg s)))) as [|nid mv] eqn:Emv.
+  - apply bal_leader_spec. apply sspec_nil. exact Hi.
+  - set (X := if len (isr (r_info (s_reg s))) <=? s_replica s
+              then add_and_wait (s_ans s) (s_reg s) (PList expected) else (AWOk, s_reg s, [])).
+    assert (HX : let '(res, r', w) := X in
+                 sspec (s_replica s) (bal_P (s_ans s)) (s_reg s) r' w /\ (res = AWOk -> r' = s_reg s /\ w = [])).
+    { unfold X. destruct (len (isr (r_info (s_reg s))) <=? s_replica s).
+      - apply add_and_wait_spec. exact Hi.
+      - split; [apply sspec_nil; exact Hi|auto]. }
+    clearbody X. destruct X as [[res r1] w1]. destruct HX as [H1 Hok].
+    destruct res; try (simpl; split; [reflexivity|exact H1]).
+    destruct (Hok eq_refl) as [Hr1 Hw1]. subst r1 w1.
+    replace (if len (isr (r_info (s_reg s))) <=? s_replica s then r_info (s_reg s) else r_info (s_reg s))
+      with (r_info (s_reg s)) by (destruct (len (isr (r_info (s_reg s))) <=? s_replica s); reflexivity).
+    assert (Hr := remove_from_node_spec (s_replica s) (bal_P (s_ans s)) (s_now s) (s_reg s) nid Hi).
+    destruct (remove_from_node (s_replica s) (s_now s) (s_reg s) (r_info (s_reg s)) nid) as [[[c r2] ns2] w2].
+    assert (H2 : sspec (s_replica s) (bal_P (s_ans s)) (s_reg s) r2 w2 /\ ns2 = r_info r2).
+    { apply pspec_sspec with (c := c). apply Hr. intros a Hb Hv. split.
+      - intros Hm. exfalso. revert Hm. apply no_new_node_same. rewrite Hb, Hv. reflexivity.
+      - intros _. rewrite Hb. exact Er. }
+    destruct H2 as [H2 Hns2]. subst ns2. simpl app.
+    destruct c; try (simpl; split; [reflexivity|exact H2]).
+    apply bal_leader_spec. exact H2.
+Qed.
+
+(* processRemovingNodes: invariant of the per-node loop *)
+Definition pacc_ok (replica : N) (env : answers) (r0 : reg) (a : pacc) : Prop :=
+  sspec replica (bal_P env) r0 (p_reg a) (p_atts a) /\
+  (p_any a = false -> p_reg a = r0 /\ p_atts a = []).
+
+Lemma set_pending_ok : forall replica env r0 nid a,
+  pacc_ok replica env r0 a -> pacc_ok replica env r0 (set_pending nid a).
+Proof.
+  intros replica env r0 nid a H. unfold set_pending. destruct (is_pending nid (p_rm a)); [exact H|].
+  destruct H as [H1 H2]. split; simpl; assumption.
+Qed.
+Lemma set_pending_fields : forall nid a, p_reg (set_pending nid a) = p_reg a /\ p_atts (set_pending nid a) = p_atts a /\ p_any (set_pending nid a) = p_any a.
+Proof. intros. unfold set_pending. destruct (is_pending nid (p_rm a)); simpl; auto. Qed.
+
+Lemma proc_act_spec : forall replica env now place r0 a nid,
+  pacc_ok replica env r0 a ->
+  pacc_ok replica env r0 (proc_act replica env now place (r_info r0) a nid).
+Proof.
+  intros replica env now place r0 a nid [Hs Hany]. unfold proc_act.
+  destruct (ahas nid (removings (r_info r0))).
+  { apply set_pending_ok. split; simpl; [exact Hs|discriminate]. }
+  destruct (negb (mem nid (raft_nodes (r_info r0)))); [split; assumption|].
+  destruct (p_any a) eqn:Ea.
+  { apply set_pending_ok. split; [exact Hs|]. rewrite Ea. discriminate. }
+  destruct (Hany eq_refl) as [Hr Hat].
+  assert (Hi : Inv replica (r_info r0)) by (destruct Hs as [Hi _]; rewrite Hr in Hi; exact Hi).
+  cbv zeta.
+  destruct (set_pending_fields nid (mkPacc (p_rm a) (p_reg a) true (p_chg a) (p_atts a) false)) as [F1 [F2 F3]].
+  simpl in F1, F2, F3. rewrite F1, F2, Hr, Hat. simpl app.
+  set (X := if len (isr (r_info r0)) <=? replica then add_and_wait env r0 place else (AWOk, r0, [])).
+  assert (HX : let '(res, r', w) := X in
+               sspec replica (bal_P env) r0 r' w /\ (res = AWOk -> r' = r0 /\ w = [])).
+  { unfold X. destruct (len (isr (r_info r0)) <=? replica).
+    - apply add_and_wait_spec. exact Hi.
+    - split; [apply sspec_nil; exact Hi|auto]. }
+  clearbody X. destruct X as [[res r1] w1]. destruct HX as [H1 Hok].
+  destruct res; try (split; simpl; [exact H1|discriminate]).
+  destruct (Hok eq_refl) as [Hr1 Hw1]. subst r1 w1.
+  replace (if len (isr (r_info r0)) <=? replica then r_info r0 else r_info r0) with (r_info r0)
+    by (destruct (len (isr (r_info r0)) <=? replica); reflexivity).
+  destruct (all_ready env (r_info r0)) eqn:Er; cbn [negb]; [|split; simpl; [exact H1|discriminate]].
+  assert (Hrm := remove_from_node_spec replica (bal_P env) now r0 nid Hi).
+  destruct (remove_from_node replica now r0 (r_info r0) nid) as [[[c r2] ns2] w2].
+  split; simpl; [|discriminate].
+  apply pspec_sspec with (c := c) (info' := ns2). apply Hrm. intros b Hb Hv. split.
+  - intros Hm. exfalso. revert Hm. apply no_new_node_same. rewrite Hb, Hv. reflexivity.
+  - intros _. rewrite Hb. exact Er.
+Qed.
+
+Lemma proc_node_spec : forall replica env now dn place r0 a nid,
+  pacc_ok replica env r0 a ->
+  pacc_ok replica env r0 (proc_node replica env now dn place (r_info r0) a nid).
+Proof.
+  intros replica env now dn place r0 a nid H. unfold proc_node.
+  destruct (p_panic a); [exact H|].
+  assert (HA1 := proc_act_spec replica env now place r0 a nid H).
+  cbv zeta. destruct (p_any (proc_act replica env now place (r_info r0) a nid)) eqn:E; [exact HA1|].
+  destruct HA1 as [HA1s HA1a]. destruct (HA1a E) as [Hr Hat].
+  split; simpl; [exact HA1s|intros _; split; assumption].
+Qed.
+
+Lemma process_removing_spec : forall s place,
+  Inv (s_replica s) (r_info (s_reg s)) ->
+  res3_spec (bal_P (s_ans s)) s (process_removing s place).
+Proof.
+  intros s place Hi. unfold process_removing.
+  destruct (s_rmnodes s) as [|e rm] eqn:Erm; [simpl; split; [reflexivity|apply sspec_nil; exact Hi]|].
+  destruct (check_pending (s_ans s) (r_info (s_reg s)) (e :: rm)); [simpl; split; [reflexivity|apply sspec_nil; exact Hi]|].
+  set (A := fold_left (proc_node (s_replica s) (s_ans s) (s_now s) (s_nodes s) place (r_info (s_reg s)))
+                      (map fst (e :: rm)) (mkPacc (e :: rm) (s_reg s) false false [] false)).
+  assert (HA : pacc_ok (s_replica s) (s_ans s) (s_reg s) A).
+  { unfold A. generalize (map fst (e :: rm)).
+    assert (H0 : pacc_ok (s_replica s) (s_ans s) (s_reg s) (mkPacc (e :: rm) (s_reg s) false false [] false)).
+    { split; simpl; [apply sspec_nil; exact Hi|auto]. }
+    revert H0. generalize (mkPacc (e :: rm) (s_reg s) false false [] false).
+    intros a0 H0 l. revert a0 H0. induction l as [|n l IH]; intros a0 H0; simpl; [exact H0|].
+    apply IH. apply proc_node_spec. exact H0. }
+  clearbody A. destruct HA as [HA _]. simpl. split; [reflexivity|exact HA].
+Qed.
+
+(* ------------------------------------------------------------------------------------------ *)
+(* every event; every event sequence                                                           *)
+(* ------------------------------------------------------------------------------------------ *)
+(* the clause an attempt made by event e in state s satisfies, besides att_ok *)
+Definition step_P (s : st) (e : event) (a : attempt) : Prop :=
+  match e with
+  | ECheck _ _ _ | EMigrate _ _ => att_sync (s_ans s) a /\ att_alive (s_replica s) (s_nodes s) a
+  | EBalance _ | EProcess _ => att_sync (s_ans s) a /\ att_mark_ready (s_ans s) a
+  | _ => True
+  end.
+
+Lemma step_spec : forall s e,
+  Inv (s_replica s) (r_info (s_reg s)) ->
+  res3_spec (step_P s e) s (step s e).
+Proof.
+  intros s e Hi. destruct e; simpl step.
+  - (* ENodes *) unfold nodes_event. simpl. split; [reflexivity|apply sspec_nil; exact Hi].
+  - simpl. split; [reflexivity|apply sspec_nil; exact Hi].
+  - simpl. split; [reflexivity|apply sspec_nil; exact Hi].
+  - (* ECheck *)
+    assert (H := do_check_spec s full place_all place_avail Hi).
+    destruct (do_check s full place_all place_avail) as [[s' p] w]. exact H.
+  - (* EMigrate *)
+    assert (H := handle_migrate_spec (s_replica s) (s_ans s) (s_now s) (s_reg s) (s_nepoch s) (avail_nodes s)
+                                     (s_nepoch s + delta) place Hi).
+    destruct (handle_migrate (s_replica s) (s_ans s) (s_now s) (s_reg s) (s_nepoch s) (r_info (s_reg s))
+                             (avail_nodes s) (s_nepoch s + delta) place) as [[[c r] i] w].
+    apply pspec_sspec in H. destruct H as [H _]. simpl. split; [reflexivity|].
+    eapply sspec_weaken; [|exact H]. intros a [Ha Hb]. split; [exact Ha|]. intros Hm. apply Hb in Hm.
+    assert (Hc := count_in_mono_cur (avail_nodes s) (s_nodes s) (raft_nodes (a_before a)) (avail_sub s)). lia.
+  - (* EAdd *)
+    assert (H := add_to_node_spec (s_replica s) (fun _ => True) (s_reg s) n Hi (fun _ _ _ _ _ => I)).
+    destruct (add_to_node (s_reg s) (r_info (s_reg s)) n) as [[[c r] i] w].
+    apply pspec_sspec in H. destruct H as [H _]. simpl. split; [reflexivity|exact H].
+  - (* ERemove *)
+    assert (H := remove_from_node_spec (s_replica s) (fun _ => True) (s_now s) (s_reg s) n Hi (fun _ _ _ => I)).
+    destruct (remove_from_node (s_replica s) (s_now s) (s_reg s) (r_info (s_reg s)) n) as [[[c r] i] w].
+    apply pspec_sspec in H. destruct H as [H _]. simpl. split; [reflexivity|exact H].
+  - (* EFinish *)
+    assert (H := remove_from_removings_spec (s_replica s) (fun _ => True) (s_ans s) (s_now s) (s_reg s) Hi (fun _ _ _ => I)).
+    destruct (remove_from_removings (s_replica s) (s_ans s) (s_now s) (s_reg s) (r_info (s_reg s))) as [[[c r] i] w].
+    apply pspec_sspec in H. destruct H as [H _]. simpl. split; [reflexivity|exact H].
+  - (* EFail *) simpl. split; [reflexivity|apply sspec_same_info; [reflexivity|exact Hi]].
+  - simpl. split; [reflexivity|apply sspec_nil; exact Hi].
+  - (* EBalance *)
+    assert (H := rebalance_spec s place Hi).
+    destruct (rebalance s place) as [[s' b] w]. exact H.
+  - simpl. split; [reflexivity|apply sspec_nil; exact Hi].
+  - (* EProcess *)
+    assert (H := process_removing_spec s place Hi).
+    destruct (process_removing s place) as [[s' b] w]. exact H.
+Qed.
+
+Lemma run_spec_gen : forall evs s acc,
+  Inv (s_replica s) (r_info (s_reg s)) ->
+  exists w, snd (fold_left run_step evs (s, acc)) = acc ++ w /\
+    s_replica (fst (fold_left run_step evs (s, acc))) = s_replica s /\
+    sspec (s_replica s) (fun _ => True) (s_reg s) (s_reg (fst (fold_left run_step evs (s, acc)))) w.
+Proof.
+  induction evs as [|e evs IH]; intros s acc Hi; simpl.
+  - exists []. rewrite app_nil_r. split; [reflexivity|]. split; [reflexivity|apply sspec_nil; exact Hi].
+  - assert (Hs := step_spec s e Hi).
+    assert (Hrs : run_step (s, acc) e = (fst (fst (step s e)), acc ++ snd (step s e))).
+    { unfold run_step. simpl. destruct (step s e) as [[? ?] ?]. reflexivity. }
+    rewrite Hrs. clear Hrs. destruct (step s e) as [[s1 rt] w1]. simpl fst. simpl snd. destruct Hs as [Hr Hs].
+    assert (Hi1 : Inv (s_replica s1) (r_info (s_reg s1))) by (rewrite Hr; destruct Hs as [H _]; exact H).
+    destruct (IH s1 (acc ++ w1) Hi1) as [w [Hw [Hrep Hsp]]].
+    exists (w1 ++ w). split; [rewrite Hw, app_assoc; reflexivity|]. split; [rewrite Hrep; exact Hr|].
+    eapply sspec_app; [eapply sspec_weaken; [|exact Hs]; auto|]. rewrite <- Hr. exact Hsp.
+Qed.
+
+Lemma run_spec : forall s evs,
+  Inv (s_replica s) (r_info (s_reg s)) ->
+  s_replica (fst (run s evs)) = s_replica s /\
+  sspec (s_replica s) (fun _ => True) (s_reg s) (s_reg (fst (run s evs))) (snd (run s evs)).
+Proof.
+  intros s evs Hi. unfold run. destruct (run_spec_gen evs s [] Hi) as [w [Hw [Hr Hs]]].
+  simpl in Hw. rewrite Hw. split; assumption.
+Qed.
+
+(* ids are never reused: an id newly assigned by any update attempt does not occur in the initial value nor
+   in any value stored before it *)
+Definition ids_of (i : rinfo) : list N := map snd (raft_ids i).
+Fixpoint never_reused (used : list N) (atts : list attempt) : Prop :=
+  match atts with
+  | [] => True
+  | a :: t =>
+      (forall n id, In (n, id) (raft_ids (a_value a)) -> ~ In (n, id) (raft_ids (a_before a)) -> ~ In id used) /\
+      never_reused (if a_ok a then ids_of (a_value a) ++ used else used) t
+  end.
+
+Lemma chain_never_reused : forall replica c atts f,
+  chain c atts f -> Forall (att_ok replica) atts ->
+  forall used, (forall id, In id used -> id <= max_id c) -> never_reused used atts.
+Proof.
+  intros replica c atts f H. induction H as [c|c a t f Hb Hk Hc IH|c a t f e Hb Hk Hc IH]; intros Hall used Hu; simpl.
+  - exact I.
+  - inversion Hall as [|? ? [Hib [Hinv Htr]] Hall']; subst. split.
+    + intros n id Hin Hnot Hused. apply (tr_ids _ _ Htr) in Hin. destruct Hin as [Hin|Hin]; [contradiction|].
+      apply Hu in Hused. lia.
+    + rewrite Hk. apply IH; assumption.
+  - inversion Hall as [|? ? [Hib [Hinv Htr]] Hall']; subst. split.
+    + intros n id Hin Hnot Hused. apply (tr_ids _ _ Htr) in Hin. destruct Hin as [Hin|Hin]; [contradiction|].
+      apply Hu in Hused. lia.
+    + rewrite Hk. apply IH; [exact Hall'|]. intros id Hid. simpl. apply in_app_iff in Hid. destruct Hid as [Hid|Hid].
+      * unfold ids_of in Hid. apply in_map_iff in Hid. destruct Hid as [[n id'] [He Hid]]. simpl in He. subst id'.
+        destruct Hinv as [Hw _]. apply (wf_ids_max _ Hw n id Hid).
+      * apply Hu in Hid. assert (Hm := tr_max _ _ Htr). lia.
+Qed.
+
+(* all_ready means: every current (non-removing) replica answered the member query with the full ready
+   set and answered "synced" *)
+Lemma all_ready_synced : forall env i n, all_ready env i = true -> In n (isr i) -> synced_of env n = true.
+Proof.
+  intros env i n H Hn. unfold all_ready in H. rewrite forallb_forall in H. specialize (H n Hn).
+  unfold node_full_ready in H. destruct (raft_nodes i); [discriminate|].
+  rewrite forallb_forall in H. specialize (H n Hn).
+  destruct (members_of env n); [|discriminate]. apply andb_true_iff in H. tauto.
 Qed.
